@@ -64,9 +64,7 @@ def ft_json(ft):
 
 
 def slice_bytes(ft, v):
-    if isinstance(v, str):
-        return v.encode("utf-16-le", "surrogatepass"), 2
-    return bytes(v), 1
+    return J.slice_enc(v)
 
 
 def feq(a, b):
@@ -96,6 +94,9 @@ def same_val(ft, exp, got):
         return isinstance(got, list) and len(got) == len(ft.inner) and all(same_val(f, e, g) for (_, f), e, g in zip(ft.inner, exp, got))
     if ft.kind == "option":
         return same_val(ft.inner, exp, got)
+    if isinstance(exp, J.U8Str):
+        # read back from the bytes that were written: an unpaired surrogate has become U+FFFD on the way in
+        return got == J.utf8_of_js_string(exp).decode("utf-8")
     return got == exp
 
 
@@ -159,7 +160,7 @@ def arg_matches(slot, arg, mem, lay):
         return all((not m) or want[i] == gotb[i] for i, m in enumerate(slot["mask"]))
     if "sliceptr" in slot:
         v = slot["sliceptr"]
-        content = v.encode("utf-16-le", "surrogatepass") if isinstance(v, str) else bytes(v)
+        content = J.slice_enc(v)[0]
         if not content:
             return isinstance(arg, int)
         return mem is not None and mem.startswith(content.hex())
